@@ -127,6 +127,10 @@ func (fr *Frame) applyContract(cx *callCtx, con *Contract) []Term {
 			}
 		}
 	}
+	// the callee's ghost variables are unknown to the caller
+	for _, g := range con.Ghosts {
+		env.vars[g] = binding{vc.fresh("ghost."+g, "Bool"), tBool}
+	}
 	ord := e.callOrd(fr, cx.name)
 	// preconditions are obligations of the caller
 	for k, c := range con.Requires {
@@ -214,7 +218,7 @@ func (e *Engine) callOrd(fr *Frame, name string) int {
 }
 
 // afterHooks: ghost updates of the top-level contract for a call that just returned.
-func (fr *Frame) afterHooks(cx *callCtx, rs []Term) {
+func (fr *Frame) afterHooks(cx *callCtx, rs []Term, before *State) {
 	e := fr.eng
 	top := e.topFrame
 	if top == nil || top.con == nil || cx.spec || len(top.con.Afters) == 0 {
@@ -241,6 +245,12 @@ func (fr *Frame) afterHooks(cx *callCtx, rs []Term) {
 			if i < len(cx.argTs) {
 				env.args = append(env.args, sval{t: a, typ: cx.argTs[i]})
 			}
+		}
+		if ah.Assume {
+			env.old = before
+			e.vc.assumeIf(cx.st.pc, env.evalBool(ah.Expr.Expr))
+			e.vc.assumes["assumed about calls of "+ah.Pattern+" in "+shortName(e.vc.fnKey)+": "+ah.Expr.Src] = true
+			continue
 		}
 		v := env.evalBool(ah.Expr.Expr)
 		c := e.comp("$g$"+ah.Ghost, "Bool")
